@@ -13,6 +13,7 @@ EXPL = ("Decides: SA-TAIL: on every construction route the RLE block is terminat
 
 def run(ctx):
     cfgs = ["rel"] if ctx.tier == "quick" else ["rel", "dbg", "strict", "unsafe", "nodef"]
+    ctx.progs(cfgs)  # build all configurations in parallel
     for c in cfgs:
         prog = ctx.prog(c)
         ctx.guard("C07", "tail", lambda: tail.compress_expand(ctx, prog))
